@@ -17,7 +17,12 @@ from .c06 import default_fields, PCIDS, norm
 
 LEVEL = 'exploration'
 
-TS = {'implicit': '1.2.840.10008.1.2', 'explicit': '1.2.840.10008.1.2.1', 'big': '1.2.840.10008.1.2.2'}
+# (for reassembly a data set is opaque bytes in whatever syntax was negotiated: compressed, deflated and private
+#  syntaxes included)
+TS = {'implicit': '1.2.840.10008.1.2', 'explicit': '1.2.840.10008.1.2.1', 'big': '1.2.840.10008.1.2.2',
+      'deflated': '1.2.840.10008.1.2.1.99', 'jpeg': '1.2.840.10008.1.2.4.50', 'rle': '1.2.840.10008.1.2.5',
+      'private': '1.2.826.0.1.3680043.9.77.1', 'htj2k': '1.2.840.10008.1.2.4.201'}
+OPAQUE_TS = ['deflated', 'jpeg', 'rle', 'private', 'htj2k']
 SOP = '1.2.840.10008.5.1.4.1.1.7'      # Secondary Capture Image Storage
 
 
@@ -330,7 +335,8 @@ def run_tiny(ctx):
                 for groups in (None, [(0, n)], [(0, n - 1), (n - 1, n)], [(0, n // 2), (n // 2, n)],
                                [(0, 1), (1, n - 2), (n - 2, n)]):
                     try:
-                        run_case(1, fields, data, M, 5, groups, reception, ('implicit', 'explicit', 'big')[ri % 3],
+                        run_case(1, fields, data, M, 5, groups, reception,
+                                 (('implicit', 'explicit', 'big') + tuple(OPAQUE_TS))[(ri + L + M) % 8],
                                  'lib' if L % 2 else 'ref', dstype=DSTYPES[(L // 2 + ri) % len(DSTYPES)])
                     except Violation as v:
                         ctx.fail(v.key, v.what, v.case)
@@ -431,7 +437,7 @@ def random_case(draw):
     bounds = [0] + [c for c in cuts if 0 < c < n] + [n]
     groups = [(a, b) for a, b in zip(bounds, bounds[1:])]
     reception = draw(st.sampled_from(['memory', 'tempfile', 'directory', 'spool'])) if cf == 1 else 'memory'
-    ts_name = draw(st.sampled_from(['implicit', 'explicit', 'big']))
+    ts_name = draw(st.sampled_from(['implicit', 'explicit', 'big'] + OPAQUE_TS))
     src = draw(st.sampled_from(['ref', 'ref', 'lib']))
     dstype = draw(st.one_of(st.sampled_from(DSTYPES), st.integers(0, 0xFFFF).filter(lambda v: v != 0x0101)))
     return cf, fields, data, M, pc_id, groups, reception, ts_name, src, dstype, n
